@@ -25,7 +25,7 @@ EXTENDS Integers, Sequences, FiniteSets, TLC, Json
 CONSTANTS OVars, IVars, SPaths,   \* variable names / storage path names (strings)
           Ks,                     \* payload values used by constructors and setters
           DKeySeq,                \* dictionary keys (strings), in their canonical order
-          MaxSeq,                 \* bound on the lengths of a, xs (model bound)
+          MaxSeq, MaxXs,          \* bounds on the lengths of a and of xs (model bounds)
           MaxNodes, MaxOps, MaxTx,
           Acts                    \* enabled action families (strings), to cut bounded configurations
 
@@ -45,6 +45,9 @@ vars == <<heap, ov, iv, cur, com, ro, ri, phase, nops, ntx, last>>
 \* ---------------------------------------------------------------- heap primitives
 RECURSIVE Sub(_, _)
 Sub(h, id) == {id} \cup UNION {Sub(h, h[id].c[j]) : j \in 1..Len(h[id].c)}
+\* TLC keeps [i \in S |-> e] as an unevaluated closure and re-evaluates e at every application;
+\* heaps are built on top of heaps, so every new heap is forced into an explicit function
+Force(f)    == f @@ << >>
 FreeIds(h)  == {i \in Ids : h[i].k = "free"}
 IdSeq       == [i \in 1..MaxNodes |-> i]
 FreeSeq(h)  == SelectSeq(IdSeq, LAMBDA i : h[i].k = "free")     \* free ids, ascending
@@ -60,9 +63,9 @@ Copy(h, id) ==
       ren == [x \in S |-> fs[CHOOSE j \in 1..Len(ss) : ss[j] = x]]
       img == {fs[j] : j \in 1..Len(ss)}
       inv == [y \in img |-> ss[CHOOSE j \in 1..Len(ss) : fs[j] = y]]
-  IN [h  |-> [i \in Ids |-> IF i \in img
-                            THEN [h[inv[i]] EXCEPT !.c = [j \in 1..Len(h[inv[i]].c) |-> ren[h[inv[i]].c[j]]]]
-                            ELSE h[i]],
+  IN [h  |-> Force([i \in Ids |-> IF i \in img
+                                  THEN [h[inv[i]] EXCEPT !.c = [j \in 1..Len(h[inv[i]].c) |-> ren[h[inv[i]].c[j]]]]
+                                  ELSE h[i]]),
       id |-> ren[id]]
 
 \* place new nodes (child entries are indices into `nodes`) on the smallest free ids
@@ -71,14 +74,17 @@ Place(h, nodes) ==
   LET fs    == FreeSeq(h)
       img   == {fs[j] : j \in 1..Len(nodes)}
       idx   == [y \in img |-> CHOOSE j \in 1..Len(nodes) : fs[j] = y]
-  IN [h  |-> [i \in Ids |-> IF i \in img
-                            THEN [nodes[idx[i]] EXCEPT !.c = [j \in 1..Len(nodes[idx[i]].c) |-> fs[nodes[idx[i]].c[j]]]]
-                            ELSE h[i]],
+  IN [h  |-> Force([i \in Ids |-> IF i \in img
+                                  THEN [nodes[idx[i]] EXCEPT !.c = [j \in 1..Len(nodes[idx[i]].c) |-> fs[nodes[idx[i]].c[j]]]]
+                                  ELSE h[i]]),
       id |-> fs[1]]
 N(k, p, c, ks) == [k |-> k, p |-> p, c |-> c, ks |-> ks]
 InnerNodes(k) == << N("I", k, <<2>>, << >>), N("L", 0, << >>, <<k>>) >>
+\* Outer(k): p = k, i = Inner(k), a = [Inner(k)], d = {FirstKey: Inner(k)}
 OuterNodes(k) == << N("O", k, <<2, 4, 5>>, << >>), N("I", k, <<3>>, << >>), N("L", 0, << >>, <<k>>),
-                    N("A", 0, << >>, << >>), N("D", 0, << >>, << >>) >>
+                    N("A", 0, <<6>>, << >>), N("D", 0, <<8>>, <<DKeySeq[1]>>),
+                    N("I", k, <<7>>, << >>), N("L", 0, << >>, <<k>>), N("I", k, <<9>>, << >>), N("L", 0, << >>, <<k>>) >>
+OuterSize == 9
 
 \* the id-free value of a node
 RECURSIVE Val(_, _)
@@ -133,7 +139,7 @@ Install(c, cm, l, ph) ==
   LET live == Live(c, cm)
       r2 == IF (c.ro.kind = "node" /\ c.ro.id \notin live) \/ (c.ro.kind = "path" /\ c.cur[c.ro.p] = 0) THEN NoRef ELSE c.ro
       q2 == IF c.ri # 0 /\ c.ri \notin live THEN 0 ELSE c.ri
-      h2 == [i \in Ids |-> IF i \in live THEN c.h[i] ELSE Free]
+      h2 == Force([i \in Ids |-> IF i \in live THEN c.h[i] ELSE Free])
       c2 == [c EXCEPT !.h = h2]
   IN /\ heap' = h2 /\ ov' = c.ov /\ iv' = c.iv /\ cur' = c.cur /\ com' = cm /\ ro' = r2 /\ ri' = q2 /\ phase' = ph
      /\ last' = l @@ [dropr |-> (r2 # c.ro), dropq |-> (q2 # c.ri), obs |-> Obs(c2, r2, q2)]
@@ -170,7 +176,7 @@ Commit == /\ phase = "tx" /\ Install(EndCfg(cur), cur, [op |-> "commit"], "idle"
 Abort  == /\ phase = "tx" /\ Install(EndCfg(com), com, [op |-> "abort"], "idle") /\ UNCHANGED <<nops, ntx>>
 
 \* ---- constructors
-NewO(v, k) == /\ On("new") /\ CanPlace(heap, 5)
+NewO(v, k) == /\ On("new") /\ CanPlace(heap, OuterSize)
               /\ LET pl == Place(heap, OuterNodes(k)) IN
                  Do([Here EXCEPT !.h = pl.h, !.ov[v] = pl.id], [op |-> "newO", v |-> v, k |-> k])
 NewI(w, k) == /\ On("new") /\ CanPlace(heap, 2)
@@ -237,7 +243,7 @@ SetX(loc, k) ==
   /\ On("mutate") /\ ITarget(loc) # 0 /\ heap[ITarget(loc)].p # k
   /\ Do([Here EXCEPT !.h = [heap EXCEPT ![ITarget(loc)].p = k]], [op |-> "setX", root |-> loc.root, sel |-> loc.sel, k |-> k])
 Push(loc, k) ==
-  /\ On("mutate") /\ ITarget(loc) # 0 /\ Len(heap[heap[ITarget(loc)].c[1]].ks) < MaxSeq
+  /\ On("mutate") /\ ITarget(loc) # 0 /\ Len(heap[heap[ITarget(loc)].c[1]].ks) < MaxXs
   /\ LET lid == heap[ITarget(loc)].c[1] IN
      Do([Here EXCEPT !.h = [heap EXCEPT ![lid].ks = Append(heap[lid].ks, k)]], [op |-> "push", root |-> loc.root, sel |-> loc.sel, k |-> k])
 
@@ -285,11 +291,11 @@ NoSharing ==
         r1 # r2 => Sub(heap, r1) \cap Sub(heap, r2) = {}
   /\ phase = "tx" => \A p \in SPaths, r \in ({ov[v] : v \in OVars} \cup {iv[w] : w \in IVars} \cup {cur[q] : q \in SPaths}) \ {0} :
         com[p] # 0 => Sub(heap, com[p]) \cap Sub(heap, r) = {}
-  /\ \A i, j \in Ids : \A a \in 1..Len(heap[i].c), b \in 1..Len(heap[j].c) :
-        (heap[i].c[a] = heap[j].c[b]) => (i = j /\ a = b)
-NoGarbage == \A i \in Ids : heap[i].k # "free" => i \in UNION {Sub(heap, r) : r \in AllRoots}
-RefsAreLive == /\ ri # 0 => ri \in UNION {Sub(heap, r) : r \in AllRoots}
-               /\ ro.kind = "node" => ro.id \in UNION {Sub(heap, r) : r \in AllRoots}
+  /\ LET slots == UNION {{<<i, a>> : a \in 1..Len(heap[i].c)} : i \in Ids}       \* every node has at most one parent
+     IN Cardinality({heap[x[1]].c[x[2]] : x \in slots}) = Cardinality(slots)
+LiveNow == UNION {Sub(heap, r) : r \in AllRoots}
+NoGarbage == LET live == LiveNow IN \A i \in Ids : heap[i].k # "free" => i \in live
+RefsAreLive == LET live == LiveNow IN (ri # 0 => ri \in live) /\ (ro.kind = "node" => ro.id \in live)
 Shapes == \A i \in Ids :
   LET n == heap[i] IN
   CASE n.k = "O" -> Len(n.c) = 3 /\ heap[n.c[1]].k = "I" /\ heap[n.c[2]].k = "A" /\ heap[n.c[3]].k = "D"
